@@ -1608,20 +1608,16 @@ Definition cp_ok (h : heap) (log : list (nat * path * Z)) (i : nat) (t : thread)
 
 
 (** another thread's step keeps [cp_ok] of thread [ti] *)
-Lemma cp_other ops s log i j ti tj h' tj' :
-  forallb quiet_op ops = true -> reach ops s -> i <> j ->
+Lemma cp_other_gen s log i j ti tj h' tj' :
+  Inv s -> Excl (hp s) -> TInv s -> Forall val_ok (thr s) -> quiet_pc (tpc tj) = true -> i <> j ->
   nth_error (thr s) i = Some ti -> nth_error (thr s) j = Some tj ->
   tstep_gen false (hp s) tj = Some (h', tj') ->
   cp_ok (hp s) log i ti -> cp_ok h' log i ti.
 Proof.
-  intros Q R D Ei Ej ST [C0 C1]. split; [exact C0|].
-  assert (QP : forallb patched_op ops = true).
-  { rewrite forallb_forall in *. intros o Ho. specialize (Q o Ho). destruct o; auto; discriminate. }
-  destruct (reach_AInv _ _ Q R) as [I [QS _]]. assert (I' := I). destruct I' as [HO [TO AC]].
-  pose proof (reach_Excl _ _ R) as EX.
-  destruct (reach_TInv _ _ QP R) as [[_ [_ WO]] [_ TS]].
+  intros I EX TI VO Qj D Ei Ej ST [C0 C1]. split; [exact C0|].
+  assert (I' := I). destruct I' as [HO [TO AC]].
+  destruct TI as [[_ [_ WO]] [_ TS]].
   pose proof (Forall_nth_error _ _ _ _ TO Ej) as Tj.
-  pose proof (Forall_nth_error _ _ _ _ QS Ej) as Qj. cbn in Qj.
   pose proof (tstep_cont_mono _ _ _ _ _ Tj Qj ST) as CM.
   intros p v t0 p' Tp Hin W. destruct (C1 p v t0 p' Tp Hin W) as [n [pn [sfx [l [Hn [Rn [NE [Rl [Rt El]]]]]]]]].
   exists n, pn, sfx, l. repeat split; auto; try (eapply resolve_mono; eauto; fail).
@@ -1643,12 +1639,29 @@ Proof.
     rewrite Forall_forall in F. destruct (F _ Inn) as [_ [m Hm]].
     eapply (excl_pair s i j ti tj n m); eauto. }
   eapply tstep_frame_pos; eauto.
-  - intros v0 Pc. pose proof (Forall_nth_error _ _ _ _ (reach_val_ok _ _ R) Ej) as V.
+  - intros v0 Pc. pose proof (Forall_nth_error _ _ _ _ VO Ej) as V.
     unfold val_ok in V. rewrite Pc in V. cbn in V. destruct (top tj) eqn:Tj'; try contradiction.
     eapply (CONTRA p0). left. unfold walk_pos. rewrite Tj', Pc. reflexivity.
-  - intros k r v0 Pc. pose proof (Forall_nth_error _ _ _ _ (reach_val_ok _ _ R) Ej) as V.
+  - intros k r v0 Pc. pose proof (Forall_nth_error _ _ _ _ VO Ej) as V.
     unfold val_ok in V. rewrite Pc in V. cbn in V. destruct (top tj) eqn:Tj'; try contradiction.
     eapply (CONTRA p0). right. exists k, r. unfold walk_pos. rewrite Tj', Pc. reflexivity.
+Qed.
+
+Lemma cp_other ops s log i j ti tj h' tj' :
+  forallb quiet_op ops = true -> reach ops s -> i <> j ->
+  nth_error (thr s) i = Some ti -> nth_error (thr s) j = Some tj ->
+  tstep_gen false (hp s) tj = Some (h', tj') ->
+  cp_ok (hp s) log i ti -> cp_ok h' log i ti.
+Proof.
+  intros Q R D Ei Ej ST C.
+  assert (QP : forallb patched_op ops = true).
+  { rewrite forallb_forall in *. intros o Ho. specialize (Q o Ho). destruct o; auto; discriminate. }
+  destruct (reach_AInv _ _ Q R) as [I [QS _]].
+  eapply (cp_other_gen s log i j ti tj); eauto.
+  - eapply reach_Excl; eauto.
+  - eapply reach_TInv; eauto.
+  - eapply reach_val_ok; eauto.
+  - apply (Forall_nth_error _ _ _ _ QS Ej).
 Qed.
 
 
